@@ -17,7 +17,15 @@ if run_demo; then with=pass; else with=fail; fi
 echo "== suite with patch" >> $LOG
 for t in $tests; do rm -f tests/$t.rs; done
 timeout 3000 cargo test --workspace --no-fail-fast --offline 2>&1 | grep -E "^test .* FAILED$" | sort -u > $O/suite_failures.txt
-suite=$(grep -v -E "package_and_post|prime_redirect" $O/suite_failures.txt | wc -l)
+# port collisions (tests bind random ports; other processes on this machine hold many): re-run each unexpected failure alone, up to 3 times
+suite=0
+for t in $(grep -v -E "package_and_post|prime_redirect" $O/suite_failures.txt | awk '{print $2}' | sed 's/.*:://' | sort -u); do
+  okc=0
+  for k in 1 2 3; do
+    if timeout 900 cargo test --workspace --offline "$t" 2>&1 | grep -E "^test .*$t \.\.\. ok" >/dev/null; then okc=1; break; fi
+  done
+  [ $okc = 1 ] && echo "flake (passes when re-run alone): $t" >> $LOG || { suite=$((suite+1)); echo "GENUINE suite failure with patch: $t" >> $LOG; }
+done
 git checkout -q -- . ; git clean -fdq -e target -e Cargo.lock
 for f in $O/demo/*.rs; do cp "$f" tests/; done
 echo "== demo without patch" >> $LOG
